@@ -444,6 +444,14 @@ impl Topo {
                 vfaces[*k as usize].push(i);
             }
         }
+        // edges incident to each vertex, in ascending key order
+        let mut vedges: Vec<Vec<(u32, u32)>> = vec![vec![]; nv];
+        for e in edge_faces.keys() {
+            vedges[e.0 as usize].push(*e);
+            if e.1 != e.0 {
+                vedges[e.1 as usize].push(*e);
+            }
+        }
         let mut vertex_only_contact = false;
         for (vi, faces) in vfaces.iter().enumerate() {
             if faces.len() < 2 {
@@ -458,10 +466,8 @@ impl Topo {
                 }
                 r
             }
-            for (e, l) in edge_faces.range((0, 0)..) {
-                if e.0 as usize != vi && e.1 as usize != vi {
-                    continue;
-                }
+            for e in &vedges[vi] {
+                let l = &edge_faces[e];
                 for w in l.windows(2) {
                     let (a, b) = (fnd(&mut q, w[0].0), fnd(&mut q, w[1].0));
                     q.insert(a, b);
